@@ -10,6 +10,7 @@ From LV Require Import Base.Bytes Base.Sx Model.Obj Model.Writer Model.Parser Mo
 From LV Require Proofs.LoadProofsStream.
 From LV Require Import Model.LoaderExt Proofs.LoaderExtProofs.
 From LV Require Import Proofs.LoadsFilterProofs Proofs.LoadsStreamProofs.
+From LV Require Model.Png Spec.StreamCodecSpec Model.StreamFilt.
 From Coq Require Import Lia.
 Local Open Scope N_scope.
 
@@ -70,7 +71,9 @@ Section XSec.
   Qed.
 
   (* ---------- the domain of the decoding ---------- *)
-  Hypothesis Hf : xs_filter x = SfNone.
+  Hypothesis Hfilt : xs_filter x = SfNone \/
+                     (dec = decompress_ref /\ can = can_ref /\ N.of_nat (xq_w0 + xq_w1 + xq_w2) <= Png.USIZE_MAX /\
+                      dict_get (a_trailer a) K_DecodeParms = None).
   Hypothesis Hs1 : secs_increasing 0 secs = true.
   Hypothesis Hs2 : forall f c, In (f, c) secs -> 1 <= c /\ f + c <= size.
   Hypothesis Hsz : size <= u32_max.
@@ -83,8 +86,11 @@ Section XSec.
   Hypothesis Hprevl : prevl = [] \/ exists q, prevl = [(K_PrevW, OInt (Z.of_N q))].
   Hypothesis Hid : 1 <= xs_id x <= u32_max.
 
-  Lemma xq_enc_none : xq_enc = (xq_raw, []).
-  Proof. unfold xq_enc. rewrite Hf. reflexivity. Qed.
+  Lemma xq_enc_none : xs_filter x = SfNone -> xq_enc = (xq_raw, []).
+  Proof. intro Hf. unfold xq_enc. rewrite Hf. reflexivity. Qed.
+
+  Lemma xq_fent_keys k : k <> K_Filter -> k <> K_DecodeParms -> dict_get (snd xq_enc) k = None.
+  Proof. apply fent_keys. Qed.
 
   Lemma xq_ents_in e : In e xq_ents -> exists k, In k (keys_of secs) /\ e = entry k.
   Proof.
@@ -133,7 +139,6 @@ Section XSec.
   Definition xq_dd : dict := denote_dict xq_d xq_ysts.
   Definition xq_d1 : dict := dict_set xq_dd K_Length (OInt (Z.of_nat (length data))).
   Definition xq_x0 : xref := {| x_type := XTStream; x_entries := spec_map xq_numb; x_size := i64_as_u32 (Z.of_N size) |}.
-  Definition xq_t : dict := LoadProofsStream.sr3 xq_d1.
 
   Lemma xq_d_wf : dict_wf xq_d.
   Proof. destruct Hxd as [Hw _]. apply spell_wf_dict in Hw. exact (proj1 Hw). Qed.
@@ -162,24 +167,32 @@ Section XSec.
     right. apply andb_true_iff in Eo as [_ Ec]. apply N.eqb_eq in Ec. subst c. split; reflexivity.
   Qed.
 
-  (* a key that is none of Type Size W Index Length is looked up in the document's trailer, then in the extra entries *)
+  (* a key that is none of Type Size W Index Length is looked up in the document's trailer, the extra entries, the filter entries *)
   Lemma xq_get_other' k :
     bytes_eqb (bs "Type") k = false -> bytes_eqb RefWriter.K_Size k = false -> bytes_eqb (bs "W") k = false ->
     dict_get xq_idx k = None -> bytes_eqb RefWriter.K_Length k = false ->
-    dict_get xq_d k = match dict_get (a_trailer a) k with Some v => Some v | None => dict_get prevl k end.
+    dict_get xq_d k = match dict_get (a_trailer a) k with
+                      | Some v => Some v
+                      | None => match dict_get prevl k with Some v => Some v | None => dict_get (snd xq_enc) k end
+                      end.
   Proof.
     intros E1 E2 E3 Hi E5. unfold xq_d. cbn [app dict_get]. rewrite E1, E2, E3. rewrite !xq_dget_app.
-    rewrite Hi, xq_enc_none. cbn [snd fst dict_get]. destruct (dict_get (a_trailer a) k); [reflexivity|].
-    destruct (dict_get prevl k); [reflexivity|]. rewrite E5. reflexivity.
+    rewrite Hi. destruct (dict_get (a_trailer a) k); [reflexivity|].
+    destruct (dict_get prevl k); [reflexivity|]. destruct (dict_get (snd xq_enc) k); [reflexivity|]. cbn [dict_get]. rewrite E5. reflexivity.
   Qed.
+
+  Lemma xq_idx_none k : bytes_eqb (bs "Index") k = false -> dict_get xq_idx k = None.
+  Proof. intro E4. destruct xq_idx_cases as [->|[-> _]]; [cbn [dict_get]; rewrite E4; reflexivity|reflexivity]. Qed.
 
   Lemma xq_get_other k :
     bytes_eqb (bs "Type") k = false -> bytes_eqb RefWriter.K_Size k = false -> bytes_eqb (bs "W") k = false ->
     bytes_eqb (bs "Index") k = false -> bytes_eqb RefWriter.K_Length k = false ->
+    bytes_eqb k K_Filter = false -> bytes_eqb k K_DecodeParms = false ->
     dict_get xq_d k = match dict_get (a_trailer a) k with Some v => Some v | None => dict_get prevl k end.
   Proof.
-    intros E1 E2 E3 E4 E5. apply xq_get_other'; try assumption.
-    destruct xq_idx_cases as [->|[-> _]]; [cbn [dict_get]; rewrite E4; reflexivity|reflexivity].
+    intros E1 E2 E3 E4 E5 E6 E7. rewrite xq_get_other' by (try assumption; apply xq_idx_none; exact E4).
+    rewrite xq_fent_keys; [destruct (dict_get (a_trailer a) k); [reflexivity|]; destruct (dict_get prevl k); reflexivity| |];
+      intro K; subst k; rewrite bytes_eqb_refl in *; discriminate.
   Qed.
 
   Lemma xq_d1_get k : k <> K_Length -> dict_get xq_d1 k = dict_get xq_dd k.
@@ -227,7 +240,8 @@ Section XSec.
       rewrite <- El. rewrite <- El in HS.
       apply xref_stream_default_Index; [exact xq_widths_sum|exact Hs0|exact HS|exact HW|].
       rewrite HI. apply xq_d1_none; [discriminate|].
-      rewrite xq_get_other' by (try reflexivity; rewrite Hi; reflexivity). destruct Htr as [Hx _]. rewrite Hx. apply prevl_get. reflexivity.
+      rewrite xq_get_other' by (try reflexivity; rewrite Hi; reflexivity). destruct Htr as [Hx _]. rewrite Hx.
+      rewrite prevl_get by reflexivity. apply xq_fent_keys; discriminate.
   Qed.
 
   Lemma xq_d1_size : dict_get xq_d1 Xref.K_Size = Some (OInt (Z.of_N size)).
@@ -235,31 +249,115 @@ Section XSec.
   Lemma xq_d1_w : dict_get xq_d1 Xref.K_W = Some (OArr [OInt (Z.of_nat xq_w0); OInt (Z.of_nat xq_w1); OInt (Z.of_nat xq_w2)]).
   Proof. rewrite xq_d1_get by discriminate. apply dict_get_denote_arr; [exact xq_get_w|exact I]. Qed.
 
-  (* THE SECTION, at its offset in any buffer *)
-  Theorem xq_parse pre post :
+  (* ---------- what Stream::decompress leaves of the dictionary, and the dictionary the decoder sees ---------- *)
+  Definition xq_d2 : dict :=
+    dict_set (dict_swap_remove (dict_swap_remove xq_d1 K_DecodeParms) K_Filter) K_Length (OInt (Z.of_nat (length xq_raw))).
+  Definition xq_dl : dict := match xs_filter x with SfNone => xq_d1 | _ => xq_d2 end.
+  Definition xq_t : dict := LoadProofsStream.sr3 xq_dl.
+
+  Lemma xq_d2_wf : dict_wf xq_d2.
+  Proof. apply dict_set_wf. repeat apply swap_remove_wf. exact xq_d1_wf. Qed.
+  Lemma xq_d2_get k : k <> K_Length -> k <> K_Filter -> k <> K_DecodeParms -> dict_get xq_d2 k = dict_get xq_d1 k.
+  Proof.
+    intros N1 N2 N3. unfold xq_d2. rewrite dict_get_set_other by exact N1.
+    rewrite dict_get_swap_remove_other; [|apply swap_remove_wf; exact xq_d1_wf|exact N2].
+    apply dict_get_swap_remove_other; [exact xq_d1_wf|exact N3].
+  Qed.
+  Lemma xq_dl_wf : dict_wf xq_dl.
+  Proof. unfold xq_dl. destruct (xs_filter x); first [exact xq_d1_wf|exact xq_d2_wf]. Qed.
+  Lemma xq_dl_get k : k <> K_Length -> k <> K_Filter -> k <> K_DecodeParms -> dict_get xq_dl k = dict_get xq_dd k.
+  Proof.
+    intros N1 N2 N3. unfold xq_dl. destruct (xs_filter x); try (rewrite xq_d2_get by assumption); apply xq_d1_get; exact N1.
+  Qed.
+
+  (* ending A: no filter (any decompress) *)
+  Lemma xq_parse_plain pre post : xs_filter x = SfNone ->
     xref_and_trailer_x dec can (pre ++ top_text xq_top ++ post) (blen pre) = SOk (xq_x0, xq_t).
   Proof.
-    unfold xref_and_trailer_x. rewrite from_app, xq_not_table.
+    intro Hf. unfold xref_and_trailer_x. rewrite from_app, xq_not_table.
     destruct (indirect_x_top (pre ++ top_text xq_top ++ post) [] xq_top post xq_top_ok (proj2 Hid)) as [P1 _].
     rewrite P1. change (loaded_top xq_top) with (OStream xq_d1 data). cbv iota.
     assert (Hnf : dict_has xq_d1 K_Filter = false).
     { unfold dict_has. rewrite xq_d1_none; [reflexivity|discriminate|].
-      rewrite xq_get_other by reflexivity. destruct Htr as [_ [Hx _]]. rewrite Hx. apply prevl_get. reflexivity. }
+      rewrite xq_get_other' by (try reflexivity; apply xq_idx_none; reflexivity). destruct Htr as [_ [Hx _]]. rewrite Hx.
+      rewrite prevl_get by reflexivity. rewrite (xq_enc_none Hf). reflexivity. }
     unfold filters_modelled. rewrite Hnf. cbn [negb orb]. unfold decode_xref_stream. rewrite Hnf.
-    replace data with xq_raw by (rewrite xq_enc_none; reflexivity).
-    rewrite (xq_decode xq_d1 xq_d1_size xq_d1_w eq_refl). reflexivity.
+    replace data with xq_raw by (rewrite (xq_enc_none Hf); reflexivity).
+    rewrite (xq_decode xq_d1 xq_d1_size xq_d1_w eq_refl). unfold xq_t, xq_dl. rewrite Hf. reflexivity.
+  Qed.
+
+  (* ending B: a filter chain, Stream::decompress = lopdf's plumbing on the Gallina decoders *)
+  Lemma xq_d1_get_fent k :
+    bytes_eqb (bs "Type") k = false -> bytes_eqb RefWriter.K_Size k = false -> bytes_eqb (bs "W") k = false ->
+    bytes_eqb (bs "Index") k = false -> bytes_eqb RefWriter.K_Length k = false -> bytes_eqb K_PrevW k = false ->
+    dict_get (a_trailer a) k = None -> dict_get xq_d1 k = dict_get (snd xq_enc) k.
+  Proof.
+    intros E1 E2 E3 E4 E5 E6 Ht.
+    assert (Hk : k <> K_Length) by (intro K; subst k; rewrite bytes_eqb_refl in E5; discriminate E5).
+    rewrite (xq_d1_get k Hk).
+    assert (Hx : dict_get xq_d k = dict_get (snd xq_enc) k).
+    { rewrite xq_get_other' by (try assumption; apply xq_idx_none; exact E4). rewrite Ht, (prevl_get k E6). reflexivity. }
+    destruct (dict_get (snd xq_enc) k) as [v|] eqn:Ef.
+    - unfold xq_dd. apply dict_get_denote_plain; [exact Hx|]. exact (fent_plain _ _ _ _ _ _ Ef).
+    - unfold xq_dd. apply dict_get_denote_none. exact Hx.
+  Qed.
+
+  Lemma xq_raw_rows : xq_raw <> [] /\ length xq_raw = (length xq_ents * (xq_w0 + xq_w1 + xq_w2))%nat.
+  Proof.
+    assert (Hl : length xq_raw = (length xq_ents * (xq_w0 + xq_w1 + xq_w2))%nat) by (unfold xq_raw, xq_ents; apply enc_sections_length).
+    split; [|exact Hl]. intro E. rewrite E in Hl. cbn [length] in Hl.
+    pose proof xq_widths_sum as Hw. destruct Hself as [k [Hk _]]. pose proof (xq_key_ent k Hk) as Hx.
+    destruct xq_ents as [|e0 es]; [contradiction|]. cbn [length] in Hl. nia.
+  Qed.
+
+  Lemma xq_parse_filt pre post : xs_filter x <> SfNone ->
+    N.of_nat (xq_w0 + xq_w1 + xq_w2) <= Png.USIZE_MAX -> dict_get (a_trailer a) K_DecodeParms = None ->
+    xref_and_trailer_x decompress_ref can_ref (pre ++ top_text xq_top ++ post) (blen pre) = SOk (xq_x0, xq_t).
+  Proof.
+    intros Hflt Hwmax Hdp. unfold xref_and_trailer_x. rewrite from_app, xq_not_table.
+    destruct (indirect_x_top (pre ++ top_text xq_top ++ post) [] xq_top post xq_top_ok (proj2 Hid)) as [P1 _].
+    rewrite P1. change (loaded_top xq_top) with (OStream xq_d1 data). cbv iota.
+    unfold filters_modelled, can_ref. rewrite orb_true_r. unfold decode_xref_stream.
+    assert (Hff : dict_has xq_d1 K_Filter = true).
+    { unfold dict_has. rewrite xq_d1_get_fent; try reflexivity; [|apply Htr].
+      assert (H : dict_get (snd xq_enc) K_Filter <> None) by (apply fent_has_filter; exact Hflt).
+      destruct (dict_get (snd xq_enc) K_Filter); [reflexivity|contradiction]. }
+    assert (Hdec : decompress_ref xq_d1 data = Some (xq_d2, xq_raw)).
+    { destruct xq_raw_rows as [Hne Hl]. unfold xq_d2. apply decompress_ref_ok.
+      apply (chain_decodes (xs_filter x) (xq_w0 + xq_w1 + xq_w2) (length xq_ents) (xs_array x) xq_raw xq_d1 Hflt); try assumption.
+      - pose proof xq_widths_sum. lia.
+      - apply xq_d1_get_fent; try reflexivity. apply Htr.
+      - apply xq_d1_get_fent; try reflexivity. exact Hdp. }
+    rewrite Hff, Hdec. rewrite (xq_decode xq_d2); [unfold xq_t, xq_dl; destruct (xs_filter x); [congruence|reflexivity..]| | |].
+    - rewrite xq_d2_get by discriminate. exact xq_d1_size.
+    - rewrite xq_d2_get by discriminate. exact xq_d1_w.
+    - apply xq_d2_get; discriminate.
+  Qed.
+
+  (* THE SECTION, at its offset in any buffer *)
+  Theorem xq_parse pre post :
+    xref_and_trailer_x dec can (pre ++ top_text xq_top ++ post) (blen pre) = SOk (xq_x0, xq_t).
+  Proof.
+    pose proof Hfilt as Hfilt0. destruct Hfilt0 as [Hf|[Ed [Ec [Hw Hdp]]]]; [apply xq_parse_plain; exact Hf|].
+    assert (Hd : xs_filter x = SfNone \/ xs_filter x <> SfNone).
+    { generalize (xs_filter x). intros [| | | |]; [left; reflexivity|right; discriminate..]. }
+    destruct Hd as [Ef|Ef]; [apply xq_parse_plain; exact Ef|]. rewrite Ed, Ec. apply xq_parse_filt; assumption.
   Qed.
 
   (* the trailer read back *)
-  Lemma xq_t_get k : bytes_eqb k Xref.K_Index || bytes_eqb k Xref.K_W || bytes_eqb k Obj.K_Length = false ->
-    dict_get xq_t k = dict_get xq_dd k.
+  Definition xq_tkey (k : bytes) : bool :=
+    bytes_eqb k Xref.K_Index || bytes_eqb k Xref.K_W || bytes_eqb k Obj.K_Length || bytes_eqb k K_Filter || bytes_eqb k K_DecodeParms.
+
+  Lemma xq_t_get k : xq_tkey k = false -> dict_get xq_t k = dict_get xq_dd k.
   Proof.
-    intro E. unfold xq_t. rewrite (LoadProofsStream.sr3_get xq_d1 k xq_d1_wf), E. apply xq_d1_get.
-    intro K. subst k. apply orb_false_iff in E as [_ E]. rewrite bytes_eqb_refl in E. discriminate E.
+    intro E. unfold xq_tkey in E. apply orb_false_iff in E as [E E5]. apply orb_false_iff in E as [E E4].
+    unfold xq_t. rewrite (LoadProofsStream.sr3_get xq_dl k xq_dl_wf), E.
+    apply orb_false_iff in E as [_ E3].
+    apply xq_dl_get; intro K; subst k; rewrite bytes_eqb_refl in *; discriminate.
   Qed.
 
   Lemma xq_t_wf : dict_wf xq_t.
-  Proof. apply LoadProofsStream.sr3_wf, xq_d1_wf. Qed.
+  Proof. apply LoadProofsStream.sr3_wf, xq_dl_wf. Qed.
 
   Lemma xq_t_prev : dict_get xq_t K_Prev = match prevl with [(_, v)] => Some v | _ => None end.
   Proof.
@@ -269,12 +367,13 @@ Section XSec.
     - apply dict_get_denote. rewrite xq_get_other by reflexivity. rewrite Hp, E. reflexivity.
   Qed.
 
-  Lemma xq_t_none k : bytes_eqb k Xref.K_Index || bytes_eqb k Xref.K_W || bytes_eqb k Obj.K_Length = false ->
+  Lemma xq_t_none k : xq_tkey k = false ->
     bytes_eqb (bs "Type") k = false -> bytes_eqb RefWriter.K_Size k = false -> bytes_eqb (bs "W") k = false ->
     bytes_eqb (bs "Index") k = false -> bytes_eqb RefWriter.K_Length k = false -> bytes_eqb K_PrevW k = false ->
     dict_get (a_trailer a) k = None -> dict_get xq_t k = None.
   Proof.
     intros E0 E1 E2 E3 E4 E5 E6 Ht. rewrite xq_t_get by exact E0. apply dict_get_denote_none.
+    unfold xq_tkey in E0. apply orb_false_iff in E0 as [E0 E8]. apply orb_false_iff in E0 as [_ E7].
     rewrite xq_get_other by assumption. rewrite Ht. apply prevl_get. exact E6.
   Qed.
 
@@ -283,14 +382,15 @@ Section XSec.
     top_ok xq_top /\
     (forall pre post, xref_and_trailer_x dec can (pre ++ top_text xq_top ++ post) (blen pre) = SOk (xq_x0, xq_t)) /\
     dict_get xq_t K_Prev = match prevl with [(_, v)] => Some v | _ => None end /\
-    (forall k, bytes_eqb k Xref.K_Index || bytes_eqb k Xref.K_W || bytes_eqb k Obj.K_Length = false ->
+    (forall k, xq_tkey k = false ->
                bytes_eqb (bs "Type") k = false -> bytes_eqb RefWriter.K_Size k = false -> bytes_eqb (bs "W") k = false ->
                bytes_eqb (bs "Index") k = false -> bytes_eqb RefWriter.K_Length k = false -> bytes_eqb K_PrevW k = false ->
                dict_get (a_trailer a) k = None -> dict_get xq_t k = None) /\
     dict_wf xq_t /\ NoDup (map fst xq_numb) /\
-    (forall k, bytes_eqb k Xref.K_Index || bytes_eqb k Xref.K_W || bytes_eqb k Obj.K_Length = false -> dict_get xq_t k = dict_get xq_dd k) /\
+    (forall k, xq_tkey k = false -> dict_get xq_t k = dict_get xq_dd k) /\
     (forall k, bytes_eqb (bs "Type") k = false -> bytes_eqb RefWriter.K_Size k = false -> bytes_eqb (bs "W") k = false ->
                bytes_eqb (bs "Index") k = false -> bytes_eqb RefWriter.K_Length k = false ->
+               bytes_eqb k K_Filter = false -> bytes_eqb k K_DecodeParms = false ->
                dict_get xq_d k = match dict_get (a_trailer a) k with Some v => Some v | None => dict_get prevl k end).
   Lemma xq_all : xq_facts.
   Proof.
@@ -300,8 +400,12 @@ Section XSec.
 End XSec.
 
 (* the hypotheses of the section, bundled *)
-Definition xq_hyps (a : adoc) (x : xsstyle) (entry : N -> sentry) (secs : list (N * N)) (size : N) (prevl : list (bytes * obj)) : Prop :=
-  xs_filter x = SfNone /\ secs_increasing 0 secs = true /\ (forall f c, In (f, c) secs -> 1 <= c /\ f + c <= size) /\
+Definition xq_hyps (a : adoc) (x : xsstyle) (entry : N -> sentry) (secs : list (N * N)) (size : N) (prevl : list (bytes * obj))
+           (dec : dict -> bytes -> option (dict * bytes)) (can : dict -> bool) : Prop :=
+  (xs_filter x = SfNone \/
+   (dec = decompress_ref /\ can = can_ref /\
+    N.of_nat (xq_w0 x entry secs + xq_w1 x entry secs + xq_w2 x entry secs) <= Png.USIZE_MAX /\
+    dict_get (a_trailer a) K_DecodeParms = None)) /\ secs_increasing 0 secs = true /\ (forall f c, In (f, c) secs -> 1 <= c /\ f + c <= size) /\
   size <= u32_max /\
   (forall k, In k (keys_of secs) -> a_of (entry k) < two32 /\ b_of (entry k) < 65536 /\ entry_in_range (entry k)) /\
   (exists k, In k (keys_of secs) /\ 0 < a_of (entry k)) /\
@@ -313,5 +417,5 @@ Definition xq_hyps (a : adoc) (x : xsstyle) (entry : N -> sentry) (secs : list (
   (prevl = [] \/ exists q, prevl = [(K_PrevW, OInt (Z.of_N q))]) /\
   1 <= xs_id x <= u32_max.
 
-Lemma xq_all' a x entry secs size prevl dec can : xq_hyps a x entry secs size prevl -> xq_facts a x entry secs size prevl dec can.
+Lemma xq_all' a x entry secs size prevl dec can : xq_hyps a x entry secs size prevl dec can -> xq_facts a x entry secs size prevl dec can.
 Proof. intros [H1 [H2 [H3 [H4 [H5 [H6 [H7 [H8 [H9 H10]]]]]]]]]. apply (xq_all a x entry secs size 0 prevl dec can); assumption. Qed.
